@@ -1,6 +1,7 @@
 SPECIFICATION Spec
 CONSTANTS Devs = {"Dev_C13_FetcherSliceReversed"}
-          Cases <- CachedCases
+          Cases <- MCSel
+          Family = "MDev"
           GF = 2
           FPKeys = {}
 INVARIANTS NoDeviation EmitSafe
